@@ -21,6 +21,7 @@ func init() {
 			"R3 local first, verbatim (ESP on extract.Endorsement): no Get on a path where event-log evidence or quote evidence was found and ForceFetch is known false; returned evidence is the callee's result value itself. " +
 			"R3c with ForceFetch known true, extract.Endorsement returns success only after a successful network Get (a forced fetch never degrades to local evidence). " +
 			"R3b in the event-log lookup at most one locator is resolved per call (the first match in precedence order decides; a failed local locator does not fall through to the network one). R4 confinement: in extract/eventlog every os file access takes a path produced by securejoin.SecureJoin rooted at the reader's Root (error checked). " +
+			"R5b the events maker's result is published as file contents in the invocation that computed it and is never stored into a field or global (no unkeyed cache of events across firmwares). " +
 			"R5 emitted events: both SP800-155 events are built with one GUID value; the URI locator is GCETcbURL of a name derived from hex(golden digest). " +
 			"Not covered: parse-back equality of emitted events, symlink behaviour (securejoin trusted), the URL the firmware itself emitted in an event log (exel.Locate fetches it as is).",
 		Assumptions: []string{"go/types, go/ssa", "securejoin.SecureJoin confines the joined path under its root", "hex.EncodeToString is injective"},
@@ -496,6 +497,72 @@ func runC16(c *Ctx) {
 		}
 		c.S.Check(same, "R5", name+":one GUID", c.pos(mk.Pos()), fmt.Sprintf("%d events share one manifest GUID value", len(guidArgs)), "the emitted events do not share one manifest GUID value")
 		c.S.Check(digestOK && urlOK, "R5", name+":URI locator", c.pos(mk.Pos()), "URI locator = GCETcbURL(name from hex(golden digest))", "the URI locator is not the bucket URL derived from the hex SHA-384 of the image")
+		// R5b: the events published for a firmware are the ones computed for it in the same invocation: the
+		// maker's result goes straight into a file's contents and is not parked in a field or global (from where a
+		// later invocation — another firmware — could pick it up).
+		nUse := 0
+		for _, g := range c.P.RepoFunctions() {
+			if c.isTestFunc(g) || !load.FuncInRepo(g) {
+				continue
+			}
+			for _, call := range callsIn(g, func(call ssa.CallInstruction) bool { return call.Common().StaticCallee() == mk }) {
+				cv, ok := call.(*ssa.Call)
+				if !ok {
+					continue
+				}
+				nUse++
+				gname := load.FuncName(g)
+				published, parked := false, ""
+				seen := map[ssa.Value]bool{}
+				var follow func(v ssa.Value, d int)
+				follow = func(v ssa.Value, d int) {
+					if v == nil || seen[v] || d > 8 || v.Referrers() == nil {
+						return
+					}
+					seen[v] = true
+					for _, ref := range *v.Referrers() {
+						switch x := ref.(type) {
+						case *ssa.Extract:
+							if x.Index == 0 {
+								follow(x, d+1)
+							}
+						case *ssa.Phi:
+							follow(x, d+1)
+						case *ssa.Slice:
+							follow(x, d+1)
+						case *ssa.ChangeType:
+							follow(x, d+1)
+						case *ssa.Store:
+							if x.Val != v {
+								continue
+							}
+							switch a := x.Addr.(type) {
+							case *ssa.FieldAddr:
+								if flow.IsFieldLoad(a, repoPath("endorse"), "File", "Contents") {
+									published = true
+								} else {
+									parked = "field " + flow.FieldName(a)
+								}
+							case *ssa.Global:
+								parked = "package-level variable " + a.Name()
+							case *ssa.Alloc:
+								// a local cell (captured or address-taken variable): follow its loads
+								for _, r2 := range *a.Referrers() {
+									if u, ok := r2.(*ssa.UnOp); ok && u.Op == token.MUL {
+										follow(u, d+1)
+									}
+								}
+							}
+						}
+					}
+				}
+				follow(cv, 0)
+				c.S.Check(parked == "", "R5b", gname+":events not cached", c.pos(call.Pos()), "the emitted events are used in this invocation only",
+					"the emitted events are stored into "+parked+": a later invocation for another firmware can publish them, and their URI locator names the earlier image's digest")
+				c.S.Check(published, "R5b", gname+":events published", c.pos(call.Pos()), "the maker's result is the contents of a written file", "the result of the events maker does not reach a written file's contents directly (what is published comes from somewhere else)")
+			}
+		}
+		c.S.Floor("R5b", "call sites of the events maker", 1, nUse)
 	}
 }
 
